@@ -276,7 +276,7 @@ func coerced(super *ast.Schema, n *normalized) (string, error) {
 	if errs != nil {
 		return "", errs
 	}
-	raw := ref.Plain(n.canonVars()).(map[string]any)
+	raw := ref.Plain(n.CanonVars()).(map[string]any)
 	v, err := ref.CoerceVariables(super, doc.Operations[0], raw)
 	if err != nil {
 		return "", err
@@ -316,7 +316,7 @@ func checkCanon(c canonCase, o *pbt.Rec) pbt.Verdict {
 		o.Discard("normalization-failed(reported-by-semantic-part)")
 		return pbt.OK
 	}
-	ctx := fmt.Sprintf("\nrewrite: %s\nq1: %s  vars %s\nq2: %s  vars %s\nn1: %s  vars %s\nn2: %s  vars %s", c.Rewrite, c.Op1.Query, c.Op1.VarsJSON(), op2.Query, op2.VarsJSON(), n1.Print, ref.Canon(n1.canonVars()), n2.Print, ref.Canon(n2.canonVars()))
+	ctx := fmt.Sprintf("\nrewrite: %s\nq1: %s  vars %s\nq2: %s  vars %s\nn1: %s  vars %s\nn2: %s  vars %s", c.Rewrite, c.Op1.Query, c.Op1.VarsJSON(), op2.Query, op2.VarsJSON(), n1.Print, ref.Canon(n1.CanonVars()), n2.Print, ref.Canon(n2.CanonVars()))
 	if n1.Print != n2.Print {
 		return pbt.Bad("operations related by %s do not reach the same printed form%s", c.Rewrite, ctx)
 	}
